@@ -99,6 +99,44 @@ func c16(c *core.Ctx) {
 		}
 	})
 	c.MarkExhaustive(fmt.Sprintf("all strings of length <= %d over the 20-symbol alphabet after each of %d prefixes", maxLen, len(c16Prefixes)))
+	if c.Thorough() && c.Config != "race" {
+		// deeper over the 12 most URI-significant symbols: every string of length 7 and 8 after the four scheme prefixes
+		small := []string{"[", "]", ":", "?", "=", "&", "%", "/", "@", ".", "0", "a"}
+		ks := len(small)
+		c.Section("exhaustive-small-alphabet", int64(4*ks*ks*ks), func(i int64, _ *gen.Rand) {
+			pfx := c16Prefixes[int(i)/(ks*ks*ks)]
+			head := small[int(i)/(ks*ks)%ks] + small[int(i)/ks%ks] + small[int(i)%ks]
+			var n int64
+			for _, l := range []int{4, 5} { // total length 7 and 8
+				idx := make([]int, l)
+				for {
+					var sb strings.Builder
+					sb.WriteString(pfx)
+					sb.WriteString(head)
+					for j := 0; j < l; j++ {
+						sb.WriteString(small[idx[j]])
+					}
+					c16Call(c, sb.String())
+					n++
+					j := l - 1
+					for j >= 0 {
+						idx[j]++
+						if idx[j] < ks {
+							break
+						}
+						idx[j] = 0
+						j--
+					}
+					if j < 0 {
+						break
+					}
+				}
+			}
+			c.Eval(n)
+			c.Distinct(uint64(i) | 4<<50)
+		})
+		c.MarkExhaustive("all strings of length 7 and 8 over a 12-symbol alphabet after the four scheme prefixes")
+	}
 	// many goroutines parsing distinct and identical URIs at once: no shared state may be hurt (a fatal runtime error ends the child)
 	c.Section("concurrent", c.N(24, 600), func(i int64, _ *gen.Rand) {
 		const g = 16
@@ -135,7 +173,7 @@ func c16(c *core.Ctx) {
 		return
 	}
 	// random, grammar-mutated, control characters, invalid UTF-8, very long inputs
-	c.Section("random", c.N(60000, 2000000), func(i int64, r *gen.Rand) {
+	c.Section("random", c.N(60000, 10000000), func(i int64, r *gen.Rand) {
 		s := c16Random(r, i)
 		t0 := time.Now()
 		c16Call(c, s)
